@@ -25,9 +25,47 @@ using x86forms::Form; using x86forms::FOp; using x86forms::Inst; using x86forms:
 // execution: three legs
 // ---------------------------------------------------------------------------------------------------------------------
 struct Leg { std::string err; std::vector<uint8_t> bytes; };
-struct Answer { std::string validate; Leg on, off; bool known = true; };
+static bool g_emitter_legs = true;
+struct EmAns { int em, diag, log, pos; std::string err; };
+struct Answer { std::string validate; Leg on, off; bool known = true; std::vector<EmAns> ev; };
 
 static std::string ename(Error e) { return e == Error::kOk ? std::string("Ok") : std::string(DebugUtils::error_as_string(e)); }
+
+// operand descriptor -> operand; labels (operand kind 'l', or memory with base type "label") are created on the emitter `e`:
+// fwd = 0 the label is bound right before the instruction, fwd = 1 it is bound right after it (returned in `pending`)
+static bool make_operands(BaseEmitter& e, const Inst& in, Operand_* ops, std::vector<Label>& pending, Error& lerr) {
+  for (size_t j = 0; j < in.ops.size(); j++) {
+    const Opd& o = in.ops[j];
+    bool labelMem = o.t == 'm' && o.bt == "label";
+    if (o.t == 'l' || labelMem) {
+      Label L = e.new_label();
+      if (labelMem ? o.b != 0 : o.fwd != 0) pending.push_back(L);      // (a label memory operand carries the state in its unused base id: the request format has no other place)
+      else { Error be = e.bind(L); if (be != Error::kOk) lerr = be; }
+      if (labelMem) { x86::Mem m = x86::ptr(L, int32_t(o.d)); m.set_size(uint32_t(o.sz)); ops[j] = m; }
+      else ops[j] = L;
+    }
+    else if (!x86forms::build_operand(o, ops[j])) return false;
+  }
+  return true;
+}
+
+// emit on any emitter; "accepted" = emit Ok AND binding the forward labels afterwards Ok
+static std::string emit_on(BaseEmitter& e, const Inst& in, InstId id) {
+  Operand_ ops[6];
+  std::vector<Label> pending; Error lerr = Error::kOk;
+  if (!make_operands(e, in, ops, pending, lerr)) return "HarnessOperand";
+  e.set_inst_options(x86forms::inst_options(in));
+  if (in.k) e.set_extra_reg(x86::k(in.k)); else e.reset_extra_reg();
+  Error err = e.emit_op_array(id, ops, in.ops.size());
+  e.reset_inst_options(); e.reset_extra_reg();
+  std::string res = ename(err);
+  for (const Label& L : pending) {
+    Error be = e.bind(L);
+    if (err == Error::kOk && be != Error::kOk) res = std::string("BindFailed:") + ename(be);
+  }
+  if (err == Error::kOk && lerr != Error::kOk) res = std::string("BindFailed:") + ename(lerr);
+  return res;
+}
 
 static Leg x86_emit(const Inst& in, InstId id, bool validation) {
   Leg leg;
@@ -36,24 +74,54 @@ static Leg x86_emit(const Inst& in, InstId id, bool validation) {
   if (code.init(env) != Error::kOk) { leg.err = "HarnessInitFailed"; return leg; }
   x86::Assembler a(&code);
   if (validation) a.add_diagnostic_options(DiagnosticOptions::kValidateAssembler);
+  // the instruction bytes: from the offset after the backward labels were bound to the offset before the forward labels are bound
   Operand_ ops[6];
-  size_t n = in.ops.size();
-  for (size_t j = 0; j < n; j++) {
-    if (!x86forms::build_operand(in.ops[j], ops[j])) {      // label: bound right here (backward reference, distance = instruction length)
-      Label L = a.new_label();
-      a.bind(L);
-      ops[j] = L;
-    }
-  }
+  std::vector<Label> pending; Error lerr = Error::kOk;
+  if (!make_operands(a, in, ops, pending, lerr)) { leg.err = "HarnessOperand"; return leg; }
   a.set_inst_options(x86forms::inst_options(in));
   if (in.k) a.set_extra_reg(x86::k(in.k)); else a.reset_extra_reg();
   size_t before = a.offset();
-  Error e = a.emit_op_array(id, ops, n);
+  Error e = a.emit_op_array(id, ops, in.ops.size());
   size_t after = a.offset();
   leg.err = ename(e);
+  for (const Label& L : pending) {
+    Error be = a.bind(L);
+    if (e == Error::kOk && be != Error::kOk) leg.err = std::string("BindFailed:") + ename(be);
+  }
   const uint8_t* p = code.text_section()->buffer().data();
   for (size_t x = before; x < after; x++) leg.bytes.push_back(p[x]);
   return leg;
+}
+
+// ---------------------------------------------------------------------------------------------------------------------
+// emitter-integrated validation: the same request on a real Assembler / Builder / Compiler with a subset of
+// {kValidateAssembler = 1, kValidateIntermediate = 2}, with / without logger, as the 1st / 2nd / 100th instruction or right
+// before the code buffer has to grow (pos = -1)
+// ---------------------------------------------------------------------------------------------------------------------
+struct EmCfg { int em; int diag; int log; int pos; };     // em: 0 assembler, 1 builder, 2 compiler
+static const char* kEmNames[] = {"asm", "builder", "compiler"};
+static const uint8_t g_fill[1 << 16] = {0};
+
+static std::string emitter_leg(const Inst& in, InstId id, const EmCfg& c) {
+  Environment env(in.m == 64 ? Arch::kX64 : Arch::kX86);
+  CodeHolder code;
+  if (code.init(env) != Error::kOk) return "HarnessInitFailed";
+  StringLogger logger;
+  if (c.log) code.set_logger(&logger);
+  DiagnosticOptions d = DiagnosticOptions::kNone;
+  if (c.diag & 1) d |= DiagnosticOptions::kValidateAssembler;
+  if (c.diag & 2) d |= DiagnosticOptions::kValidateIntermediate;
+  x86::Assembler a; x86::Builder b; x86::Compiler cc;
+  BaseEmitter* e = c.em == 0 ? static_cast<BaseEmitter*>(&a) : c.em == 1 ? static_cast<BaseEmitter*>(&b) : static_cast<BaseEmitter*>(&cc);
+  if (code.attach(e) != Error::kOk) return "HarnessAttachFailed";
+  e->add_diagnostic_options(d);
+  int before = c.pos > 0 ? c.pos - 1 : 1;
+  for (int k = 0; k < before; k++) if (e->emit(x86::Inst::kIdNop) != Error::kOk) return "HarnessNopFailed";
+  if (c.pos < 0 && c.em == 0) {            // fill the buffer so that fewer than 16 bytes remain: the next instruction makes it grow
+    size_t cap = code.text_section()->buffer().capacity(), off = a.offset();
+    if (cap > off + 8 && cap - off - 8 <= sizeof(g_fill)) a.embed(g_fill, cap - off - 8);
+  }
+  return emit_on(*e, in, id);
 }
 
 static Answer x86_execute(const Inst& in) {
@@ -68,15 +136,40 @@ static Answer x86_execute(const Inst& in) {
     Environment env(arch); CodeHolder code; code.init(env);
     x86::Assembler la(&code);
     Operand_ ops[6];
-    for (size_t j = 0; j < in.ops.size(); j++)
-      if (!x86forms::build_operand(in.ops[j], ops[j])) { Label L = la.new_label(); la.bind(L); ops[j] = L; }
+    std::vector<Label> pending; Error lerr = Error::kOk;
+    make_operands(la, in, ops, pending, lerr);
     BaseInst bi(id, x86forms::inst_options(in));
     if (in.k) bi.set_extra_reg(x86::k(in.k));
     r.validate = ename(InstAPI::validate(arch, bi, ops, in.ops.size(), ValidationFlags::kNone));
   }
   r.on = x86_emit(in, id, true);
   r.off = x86_emit(in, id, false);
+  // emitter legs: every request that validate or the encoder refuses, and every 8th of the others, on two configurations
+  // that rotate through all combinations (emitter x option subset x logger x position)
+  static unsigned long counter = 0, rot = 0;
+  counter++;
+  if (g_emitter_legs && (r.validate != "Ok" || r.off.err != "Ok" || counter % 8 == 0)) {
+    static std::vector<EmCfg> all;
+    if (all.empty()) {
+      for (int em = 0; em < 3; em++) for (int dg = 0; dg < 4; dg++) for (int lg = 0; lg < 2; lg++) for (int pos : {1, 2, 100, -1}) {
+        if (em != 0 && (pos == -1)) continue;                 // buffer growth only exists for the assembler
+        if (em != 0 && !(dg & 2)) continue;                   // a Builder / Compiler without kValidateIntermediate makes no claim
+        if (em == 0 && dg == 0) continue;                     // = the plain leg
+        all.push_back(EmCfg{em, dg, lg, pos});
+      }
+    }
+    for (int k = 0; k < 2; k++) {
+      const EmCfg& c = all[(rot++ * 7) % all.size()];
+      r.ev.push_back(EmAns{c.em, c.diag, c.log, c.pos, emitter_leg(in, id, c)});
+    }
+  }
   return r;
+}
+
+static void write_ev(vj::W& w, const Answer& a) {
+  w.key("ev").beginArr();
+  for (const EmAns& e : a.ev) w.beginObj().kv("em", kEmNames[e.em]).kv("d", e.diag).kv("lg", e.log).kv("pos", e.pos).kv("e", e.err).endObj();
+  w.endArr();
 }
 
 static void write_leg(vj::W& w, const char* k, const Leg& l) {
@@ -206,14 +299,32 @@ static bool instance(const Row& row, int mode, const std::vector<char>& kinds, i
     case 9: if (!f.xacq || !lockable) return false; build_instance(row, mode, kinds, 0, false, ob); ob.opt |= x86forms::O_LOCK | x86forms::O_XACQ; return true;
     case 10: if (!f.xrel || rmMem < 0) return false; build_instance(row, mode, kinds, 0, false, ob); ob.opt |= (f.lock ? x86forms::O_LOCK : 0) | x86forms::O_XREL; return true;
     case 11: return build_instance(row, mode, kinds, 3, false, ob);
+    // label state as a dimension: 16 label not bound yet (bound right after the instruction), 17 the same + short_(), 18 bound label + short_(),
+    // 19 bound label + long_(), 20 unbound label + long_(); 21 / 22 the ModRM memory operand as [label] with the label bound before / after
+    case 16: case 17: case 18: case 19: case 20: {
+      bool hasLabel = false; for (char k : kinds) if (k == 'l') hasLabel = true;
+      if (!hasLabel) return false;
+      build_instance(row, mode, kinds, 0, false, ob);
+      for (Opd& o : ob.ops) if (o.t == 'l') o.fwd = (n == 16 || n == 17 || n == 20) ? 1 : 0;
+      if (n == 17 || n == 18) ob.opt |= x86forms::O_SHORT;
+      if (n == 19 || n == 20) ob.opt |= x86forms::O_LONG;
+      return true;
+    }
+    case 21: case 22: {
+      if (rmMem < 0 || !f.ops[rmMem].vsib.empty()) return false;
+      build_instance(row, mode, kinds, 0, false, ob);
+      Opd& o = ob.ops[rmMem];
+      o.bt = "label"; o.b = n == 22 ? 1 : 0; o.it = ""; o.i = 0; o.sh = 0; o.d = 0;
+      return true;
+    }
     default:
       if (n >= 12 && n <= 15) return build_instance(row, mode, kinds, n - 10, n == 13 && anyImp, ob);     // id sets 2..5 (r8.., xmm16.. for EVEX rows)
       return false;
   }
 }
 
-static const int kQuickInstances[] = {0, 1, 2, 3, 4, 5, 6, 7, 8, 9, 10};
-static const int kThoroughInstances[] = {0, 1, 2, 3, 4, 5, 6, 7, 8, 9, 10, 11, 12, 13, 14, 15};
+static const int kQuickInstances[] = {0, 1, 2, 3, 4, 5, 6, 7, 8, 9, 10, 16, 17, 18, 19, 20, 21, 22};
+static const int kThoroughInstances[] = {0, 1, 2, 3, 4, 5, 6, 7, 8, 9, 10, 11, 12, 13, 14, 15, 16, 17, 18, 19, 20, 21, 22};
 
 static std::string next_class(const std::string& c, bool up, int mode) {
   if (c == "gpb") return up ? "gpw" : "";
@@ -241,7 +352,7 @@ struct Sink {
     x86forms::write_request(w, in);
     w.kv("kind", kind).kv("what", what).kv("var", var).kv("ix", inst).kv("sig", row.ops_s).kv("mb", row.f.arch);
     w.kv("known", a.known).kv("v", a.validate);
-    write_leg(w, "on", a.on); write_leg(w, "off", a.off);
+    write_leg(w, "on", a.on); write_leg(w, "off", a.off); write_ev(w, a);
     w.endObj();
     w.emit(f);
     n++;
@@ -457,7 +568,7 @@ int main(int argc, char** argv) {
         Answer a = x86_execute(ob);
         vj::W w; w.beginObj(); w.kv("a", "x86"); x86forms::write_request(w, ob);
         w.kv("kind", v["kind"].s()).kv("what", v["what"].s()).kv("var", v["var"].s()).kv("ix", int(v["ix"].i())).kv("sig", v["sig"].s()).kv("mb", v["mb"].s());
-        w.kv("known", a.known).kv("v", a.validate); write_leg(w, "on", a.on); write_leg(w, "off", a.off); w.endObj(); w.emit(out);
+        w.kv("known", a.known).kv("v", a.validate); write_leg(w, "on", a.on); write_leg(w, "off", a.off); write_ev(w, a); w.endObj(); w.emit(out);
       } else if (v["a"].s() == "a64") {
         // strip the recorded answer: everything from ,"known": on
         size_t p = line.find(",\"known\":");
